@@ -807,7 +807,7 @@ def gen_module(rng, profile=None):
     rng.shuffle(tks)
     want_S = profile.get("subclasses", True) and rng.random() < 0.35
     want_P = profile.get("subclasses", True) and rng.random() < 0.3
-    if want_S or want_P:
+    if (want_S or want_P) and not profile.get("dnc_with_subclasses"):
         profile = dict(profile, dnc_attrs=False)  # do_not_copy x subclassing: see DESIGN.md (kept apart)
     attrs = [gen_attr(tk, rng, profile) for tk in tks]
     M = ClassDecl(name="M", attrs=attrs, bootstrap=rng.random() < 0.5)
@@ -855,6 +855,10 @@ def gen_module(rng, profile=None):
         unused = [tk for tk in SCALAR_TKS + COLL_TKS if TYPES[tk].name not in names]
         if unused and rng.random() < 0.6:
             S.attrs.append(gen_attr(rng.choice(unused), rng, profile))
+        if profile.get("dnc_with_subclasses") and rng.random() < 0.7:
+            # the subclass declares its own (different) do_not_copy list for inherited attributes
+            cands = [a.name for a in attrs if a.info.kind != "scalar" and a.name not in M.dnc_list]
+            S.dnc_list = tuple(rng.sample(cands, min(len(cands), rng.randint(0, 1))))
         classes.append(S)
         last = S
     if want_P:
